@@ -410,7 +410,21 @@ def check_property(prop, spec, tier, seed, replay=None):
                 else:
                     inconclusive.append(f"build failed for {','.join(g)}/{v}: {' | '.join(errs) or txt[-400:]}")
     if inconclusive or build_violations:
-        return finish(prop, spec, tier, seed, build_violations, [], inconclusive, notes, build_log, t_start, {})
+        agg0 = {}
+        if "also_custom" in spec and not replay:
+            # the engine does not build against this tree; the compiler-observed half (accept
+            # probes / const items) is independent of the engine and can still decide
+            v2, a2, inc2, bl2, agg2 = spec["also_custom"](tier, seed)
+            fams = tuple(spec.get("also_families", ()))
+            for v in v2:
+                if v["sig"].split("|")[0].startswith(fams):
+                    v = dict(v)
+                    v["prop"] = prop
+                    build_violations.append(v)
+            inconclusive.extend(inc2)
+            build_log.extend(bl2)
+            agg0.update(agg2)
+        return finish(prop, spec, tier, seed, build_violations, [], inconclusive, notes, build_log, t_start, agg0)
 
     # ---- run
     default_timeout = 900 if tier == "quick" else 5400
